@@ -77,7 +77,7 @@ def request_st(draw, spec):
         n = 0  # deletes need an existing target to succeed
     content = bytes((i * 13 + 5) & 0xFF for i in range(n))
     tok = draw(st.sampled_from([None, "tok-1", "tok-2", "wrong", "", "  ", "tok-1;token=wrong", "wrong;token=tok-1"]))
-    mime = draw(st.sampled_from([None, "text/gemini", "text/plain", "image/png", "application/x-evil"]))
+    mime = draw(st.sampled_from([None, "text/gemini", "text/plain", "image/png", "application/x-evil", "", " "]))
     return {"path": path, "size": n, "content": b2s(content), "token": tok, "mime": mime, "labels": labels}
 
 
@@ -348,7 +348,7 @@ def enum_preconditions(tier):
     for tokens in ("none", "one", "several"):
         for tok in (None, "tok-1", "wrong"):
             for types in (None, ["text/gemini", "text/plain"]):
-                for mime in (None, "text/plain", "image/png"):
+                for mime in (None, "text/plain", "image/png", "", " "):
                     for delete in (True, False):
                         for n in (0, 3, 64, 65):
                             for path in ("/a.gmi", "/new.gmi"):
